@@ -62,7 +62,7 @@ def gen_case(rng, cfg, idx):
         for _ in range(nsp):
             if valid:
                 from mgverif.gen.build import _rand_valid_axis
-                axes.append(_rand_valid_axis(rng))
+                axes.append(_rand_valid_axis(rng, documented_only=True))
             else:
                 axes.append((rng.randint(1, 7), rng.randint(1, 3), rng.randint(1, 3), rng.choice([0, 0, 1, 2]), rng.choice([1, 1, 2, 3])))
         c.update({"N": rng.randint(1, 2), "C": rng.randint(1, 2), "F": rng.randint(1, 2), "axes": [list(a) for a in axes], "spell": rng.choice(["int", "tuple"]),
